@@ -5,6 +5,7 @@ mod c02;
 mod c03;
 mod c04;
 mod c05;
+mod c08;
 mod repairs;
 mod c09;
 mod c10;
@@ -18,6 +19,9 @@ mod util;
 
 use util::*;
 
+#[global_allocator]
+static ALLOC: c08::Counting = c08::Counting;
+
 fn main() {
     let args: Vec<String> = std::env::args().collect();
     if args.len() < 2 {
@@ -25,6 +29,10 @@ fn main() {
         std::process::exit(2);
     }
     let prop = args[1].to_uppercase();
+    if prop == "C08-WORKER" {
+        c08::worker(&args[2], &args[3]);
+        return;
+    }
     let mut tier = "quick".to_string();
     let mut seed = 1u64;
     let mut out = None;
@@ -52,6 +60,7 @@ fn main() {
         "C03" => c03::run(&ctx),
         "C04" => c04::run(&ctx),
         "C05" => c05::run(&ctx),
+        "C08" => c08::run(&ctx),
         "C09" => c09::run(&ctx),
         "C10" => c10::run(&ctx),
         "C11" => c11::run(&ctx),
